@@ -28,6 +28,8 @@ RList(s) == [k |-> "array",   t |-> "", items |-> s, props |-> <<>>]
 RSet(p)  == [k |-> "object",  t |-> "", items |-> <<>>, props |-> p]     \* p = seq of [n, v]
 Rule(n, v) == [n |-> n, v |-> v]
 Big == "18446744073709551617"                                           \* 2^64 + 1
+Half == "9223372036854775808"                                           \* 2^63
+MaxU == "18446744073709551615"                                          \* 2^64 - 1
 
 \* ---- annotations: ordered rules + note id (0 = none); menus per value
 Ann(rules, note) == [rules |-> rules, note |-> note]
@@ -47,6 +49,7 @@ Twelve == Scalar("12", "number", "12")
 Frac   == Scalar("-0.50", "number", "-0.50")
 Tom    == Scalar("\"Tom\"", "string", "Tom")
 Esc    == Scalar("\"q\\\"x\"", "string", "q\"x")
+Ctl    == Scalar("\"a\\fb\\u0001\"", "string", "a<FF>b<SOH>")          \* control characters: the harness substitutes <FF>, <SOH>
 Yes    == Scalar("true", "boolean", "true")
 Nul    == Scalar("null", "null", "null")
 
@@ -54,7 +57,8 @@ ValueMenu == << Twelve, Frac, Tom, Esc, Yes, Nul, Ref("@t"), Ref("@a | @b"),
                 Arr(<< Kid(Twelve, Ann(<<Rule("min", RNum("1"))>>, 1)), Kid(Tom, NoAnn) >>),
                 Obj(<< Key("in", FALSE) >>, << Kid(Twelve, Ann(<<Rule("max", RNum("100"))>>, 0)) >>),
                 Obj(<<>>, <<>>), Arr(<<>>),
-                Obj(<< Key("@k", TRUE), Key("z", FALSE) >>, << Kid(Yes, NoAnn), Kid(Arr(<< Kid(Nul, NoAnn) >>), NoAnn) >>) >>
+                Obj(<< Key("@k", TRUE), Key("z", FALSE) >>, << Kid(Yes, NoAnn), Kid(Arr(<< Kid(Nul, NoAnn) >>), NoAnn) >>),
+                Ctl >>
 
 \* annotation menus, indexed like ValueMenu; the first entries are the most basic ones
 AnnMenu == <<
@@ -73,6 +77,7 @@ AnnMenu == <<
   \* "Tom"
   << Ann(<<Rule("minLength", RNum("1"))>>, 0),
      Ann(<<Rule("regex", RStr("^T")), Rule("maxLength", RNum("10"))>>, 1),
+     Ann(<<Rule("maxLength", RNum(MaxU))>>, 0),
      Ann(<<Rule("minLength", RNum(Big))>>, 0),
      Ann(<<Rule("enum", RList(<< RStr("Tom"), RStr("b") >>))>>, 0),
      Ann(<<Rule("type", RStr("string"))>>, 2) >>,
@@ -89,6 +94,7 @@ AnnMenu == <<
   \* [12, "Tom"]
   << Ann(<<Rule("minItems", RNum("1"))>>, 0),
      Ann(<<Rule("minItems", RNum("0")), Rule("maxItems", RNum("5"))>>, 1),
+     Ann(<<Rule("maxItems", RNum(MaxU))>>, 0),
      Ann(<<Rule("minItems", RNum(Big))>>, 0) >>,
   \* {"in": 12}
   << Ann(<<Rule("additionalProperties", RBool("false"))>>, 0),
@@ -99,7 +105,10 @@ AnnMenu == <<
   \* []
   << Ann(<<Rule("maxItems", RNum("0"))>>, 0) >>,
   \* {@k: true, "z": [null]}
-  << Ann(<<>>, 1) >> >>
+  << Ann(<<>>, 1) >>,
+  \* "a\fb\u0001"
+  << Ann(<<Rule("const", RBool("true"))>>, 0), Ann(<<Rule("enum", RList(<< RStr("a<FF>b<SOH>"), RStr("x") >>))>>, 1),
+     Ann(<<Rule("maxLength", RNum(Half))>>, 0) >> >>
 
 PropKeys == << Key("id", FALSE), Key("a\\\"b", FALSE), Key("last", FALSE) >>   \* text as written between the quotes
 
